@@ -43,6 +43,11 @@ class Ctx:
     def __init__(self, src, sizes, enum_unsigned, path=None):
         self.path = path
         self.src = src
+        self.subst = {}               # inlining: parameter name -> ("obj", text of the object whose address was passed) | ("expr", cexpr text)
+        self.locals = set()           # inlining: the callee's locals
+        self.lprefix = ""             # inlining: what the callee's locals and keys are prefixed with
+        self.inl_names = {}           # id of an inlined call node -> the name its result is stored under
+        self.inline_ok = False        # calls to the iterator routines are inlined in this routine
         self.sizes = sizes            # type text -> size
         self.want = set()             # type texts whose size is needed
         self.enum_unsigned = enum_unsigned
@@ -103,7 +108,20 @@ class Ctx:
         # offsets of nodes that come from a macro body or another file do not index this file: keep only what reads as an lvalue
         if not s or not re.fullmatch(r"[\w\->.\[\]()*&+]+", s) or s.count("(") != s.count(")") or s.count("[") != s.count("]"):
             return None
-        return s
+        return self.rename(s)
+
+    def rename(self, s):
+        """an inlined callee's lvalue text in terms of the caller's objects: p->f becomes x.f when &x was passed for p; locals are prefixed"""
+        amp = s.startswith("&")
+        core = s[1:] if amp else s
+        m = re.match(r"[A-Za-z_]\w*", core)
+        if m:
+            head = m.group(0)
+            if head in self.subst and self.subst[head][0] == "obj" and core[len(head):len(head) + 2] == "->":
+                core = self.subst[head][1] + "." + core[len(head) + 2:]
+            elif head in self.locals:
+                core = self.lprefix + core
+        return ("&" if amp else "") + core
 
 
 def coq_s(s):
@@ -249,6 +267,18 @@ def addr_of(cx, n, addr_taken=False):
     return None
 
 
+INLINABLE = {"libwifi_tag_iterator_init", "libwifi_tag_iterator_next"}
+INLINE_IN = {"libwifi_check_tag", "libwifi_remove_tag"}
+FNMAP = {}          # name -> (function node, source bytes, path)
+
+
+def inl_name(cx, call, nm):
+    i = call.get("id")
+    if i not in cx.inl_names:
+        cx.inl_names[i] = "ret$%s#%d" % (nm, sum(1 for v in cx.inl_names.values() if v.startswith("ret$%s#" % nm)))
+    return cx.inl_names[i]
+
+
 def stmtexpr_load(cx, n):
     """the GNU statement expression of get_unaligned(): ({ T tmp; memmove(&tmp, P, sizeof tmp); tmp; }) is a load of T from P"""
     q = qual(n.get("type"))
@@ -335,8 +365,11 @@ def expr(cx, n):
             if v is not None and ty:
                 return "(CLit %s %s)" % (ty, zl(v))
             return "CUnknown"
+        if rd.get("name") in cx.subst and rd.get("kind") == "ParmVarDecl":
+            kind, val = cx.subst[rd["name"]]
+            return val if kind == "expr" else "(CVar u64 %s)" % coq_s("&" + val)
         if ty and rd.get("name"):
-            return "(CVar %s %s)" % (ty, coq_s(rd["name"]))
+            return "(CVar %s %s)" % (ty, coq_s(cx.rename(rd["name"])))
         return "CUnknown"
     if k in ("MemberExpr", "ArraySubscriptExpr") or (k == "UnaryOperator" and n.get("opcode") == "*"):
         a = addr_of(cx, n)
@@ -404,6 +437,8 @@ def expr(cx, n):
     if k == "CallExpr":
         callee = astq.strip(inner[0]) if inner else {}
         nm = (callee.get("referencedDecl") or {}).get("name", "?")
+        if cx.inline_ok and nm in INLINABLE and nm in FNMAP:
+            return "(CVar %s %s)" % (ty or "s32", coq_s(inl_name(cx, n, nm)))
         if nm in ("__uint16_identity", "__uint32_identity", "__uint64_identity") and ty and len(inner) == 2:
             return "(CCast %s %s)" % (ty, expr(cx, inner[1]))          # le16toh & co on a little-endian host
         bs = {"ntohs": 16, "htons": 16, "__bswap_16": 16, "ntohl": 32, "htonl": 32, "__bswap_32": 32, "__bswap_64": 64}.get(nm)
@@ -423,7 +458,7 @@ def expr(cx, n):
     return "CUnknown"
 
 
-def sites_of(cx, fn):
+def sites_of(cx, fn, kprefix=""):
     """-> (flat list of (key, cexpr), structured body as Coq text of a `list cstmt`)"""
     out = []
     cnt = {}
@@ -431,7 +466,31 @@ def sites_of(cx, fn):
     def key(base):
         c = cnt.get(base, 0)
         cnt[base] = c + 1
-        return "%s#%d" % (base, c)
+        return "%s%s#%d" % (kprefix, base, c)
+
+    def inline_call(m, nm):
+        """the callee's body, translated with its parameters replaced by this call's arguments"""
+        cfn, csrc, cpath = FNMAP[nm]
+        inner = m.get("inner") or []
+        params = [c for c in cfn.get("inner", []) if c.get("kind") == "ParmVarDecl"]
+        c2 = Ctx(csrc, cx.sizes, True, cpath)
+        c2.want = cx.want
+        c2.inline_ok = False
+        rn = inl_name(cx, m, nm)
+        c2.lprefix = rn[4:] + "$"
+        c2.locals = {v.get("name") for v in astq.walk(cfn) if v.get("kind") == "VarDecl"}
+        for pd, a in zip(params, inner[1:]):
+            b = a
+            while b.get("kind") in ("ParenExpr", "ImplicitCastExpr", "CStyleCastExpr") and b.get("castKind") in (None, "BitCast", "NoOp") and b.get("inner"):
+                b = b["inner"][0]
+            t = cx.text(b["inner"][0]) if (b.get("kind") == "UnaryOperator" and b.get("opcode") == "&" and b.get("inner")) else None
+            if t is not None:
+                c2.subst[pd.get("name")] = ("obj", t)
+            else:
+                c2.subst[pd.get("name")] = ("expr", expr(cx, a))
+        sub_out, sub_tree = sites_of(c2, cfn, kprefix="%s:" % rn[4:])
+        out.extend(sub_out)
+        return "(SInline %s %s)" % (coq_s(rn), lst(sub_tree))
 
     def lst(items):
         return "[" + "; ".join(items) + "]"
@@ -456,6 +515,9 @@ def sites_of(cx, fn):
                 inner = m.get("inner") or []
                 callee = astq.strip(inner[0]) if inner else {}
                 nm = (callee.get("referencedDecl") or {}).get("name", "?")
+                if cx.inline_ok and nm in INLINABLE and nm in FNMAP:
+                    res.append(inline_call(m, nm))
+                    continue
                 kk = key("call:" + nm)
                 args = [expr(cx, a) for a in inner[1:]]
                 if nm in CALLS:
@@ -562,7 +624,11 @@ def sites_of(cx, fn):
             kk = key("loop")
             c = expr(cx, inner[1])
             out.append((kk, c))
-            if calls_in(inner[1]):
+            cc = calls_in(inner[1])
+            if cc and all(x.startswith("(SInline ") for x in cc):
+                # the condition's call is an inlined routine: it runs at the end of every pass, the condition reads its result
+                return ["(SLoop %s false %s %s [])" % (coq_s(kk), c, lst(body + cc))]
+            if cc:
                 return body + ["(SOther \"call in loop condition\")"]
             return ["(SLoop %s false %s %s [])" % (coq_s(kk), c, lst(body))]
         if k == "ForStmt":
@@ -584,7 +650,7 @@ def sites_of(cx, fn):
                     init = [c for c in (d.get("inner") or []) if c.get("kind", "").endswith(("Expr", "Operator", "Literal"))]
                     if init and cx.cty(q) and not is_arr(q):
                         r += calls_in(init[0])
-                        r.append(sset(key("decl:" + d.get("name", "?")), d.get("name", "?"), "(CCast %s %s)" % (cx.tystr(q), expr(cx, init[0]))))
+                        r.append(sset(key("decl:" + d.get("name", "?")), cx.rename(d.get("name", "?")), "(CCast %s %s)" % (cx.tystr(q), expr(cx, init[0]))))
                     elif init:
                         r += calls_in(init[0])          # a struct / array local: memory is not modelled
             return r
@@ -764,24 +830,33 @@ def emit(repo, gen, cflags, write_if_changed, build):
     for attempt in range(3):
         allf = []
         want = set()
-        for path in files:
-            src = open(path, "rb").read()          # clang's offsets count bytes (the sources have UTF-8 box drawings in comments)
-            d1, d2 = astq.ast_of(cflags, path, "libwifi_"), astq.ast_of(cflags, path, "ieee80211_radiotap_")
-            annotate_files(d1)
-            annotate_files(d2)
-            docs = d1 + d2
+        if attempt == 0:
+            parsed = []
+            for path in files:
+                src = open(path, "rb").read()          # clang's offsets count bytes (the sources have UTF-8 box drawings in comments)
+                d1, d2 = astq.ast_of(cflags, path, "libwifi_"), astq.ast_of(cflags, path, "ieee80211_radiotap_")
+                annotate_files(d1)
+                annotate_files(d2)
+                fns = []
+                seen = set()
+                for d in d1 + d2:
+                    for n in astq.walk(d):
+                        if n.get("kind") == "FunctionDecl" and n.get("name") and n["name"] not in seen and any(
+                                c.get("kind") == "CompoundStmt" for c in n.get("inner", [])):
+                            loc = n.get("loc") or {}
+                            # only definitions whose text is in this file (not inline functions of included headers)
+                            if "includedFrom" in loc or "includedFrom" in ((n.get("range") or {}).get("begin") or {}):
+                                continue
+                            seen.add(n["name"])
+                            fns.append(n)
+                            FNMAP[n["name"]] = (n, src, path)
+                parsed.append((path, src, fns))
+        for path, src, fns in parsed:
             cx = Ctx(src, sizes, True, path)
-            seen = set()
-            for d in docs:
-                for n in astq.walk(d):
-                    if n.get("kind") == "FunctionDecl" and n.get("name") and n["name"] not in seen and any(
-                            c.get("kind") == "CompoundStmt" for c in n.get("inner", [])):
-                        loc = n.get("loc") or {}
-                        # only definitions whose text is in this file (not inline functions of included headers)
-                        if "includedFrom" in loc or "includedFrom" in ((n.get("range") or {}).get("begin") or {}):
-                            continue
-                        seen.add(n["name"])
-                        allf.append((n["name"], os.path.relpath(path, repo), sites_of(cx, n)))
+            for n in fns:
+                cx.inline_ok = n["name"] in INLINE_IN
+                cx.inl_names = {}
+                allf.append((n["name"], os.path.relpath(path, repo), sites_of(cx, n)))
             want |= cx.want
         missing = {t for t in want if t not in sizes}
         result = allf
